@@ -362,10 +362,17 @@ class Daemon:
             e.update(env)
         cmd = [BIN[binary], '-f', '--no-pid-file', '--log-stderr', '--log-level', log_level, '-c', config] + list(extra_args)
 
+        run_as = e.pop('VERIF_RUN_AS_UID', None)
+
         def pre():
             if umask is not None:
                 os.umask(umask)
             os.setsid()
+            if run_as:
+                # an unprivileged daemon (no CAP_DAC_OVERRIDE, no chown to others)
+                os.setgroups([])
+                os.setgid(int(run_as))
+                os.setuid(int(run_as))
         self.p = subprocess.Popen(cmd, stdout=subprocess.DEVNULL, stderr=self.err, env=e, cwd=d, preexec_fn=pre)
 
     def alive(self):
